@@ -280,7 +280,7 @@ func (e *Engine) chanClose(ch *chanv) {
 
 // chooseIndex picks one of n alternatives: a forked choice when the job explores schedules, else the first.
 func (e *Engine) chooseIndex(n int) int {
-	if n <= 1 || !e.sh.exploreSched {
+	if n <= 1 || !e.sh.exploreSched || e.schedOff {
 		return 0
 	}
 	if e.sh.schedBudget > 0 && e.schedForks >= e.sh.schedBudget {
